@@ -24,6 +24,13 @@ GArgPaths == {<<"a">>, <<"b">>, <<"a", "a">>, <<"b", "a">>, <<"a", "f">>, <<"a",
 GMvDsts   == {<<p, FALSE>> : p \in GArgPaths \cup {<<"f">>}}
              \cup {<<p, TRUE>> : p \in {<<>>, <<"a">>, <<"b">>, <<"a", "a">>, <<"b", "a">>}}
 GDataSet  == {<<1>>, <<2, 3>>}
+\* "prefix names" family (preset 6): entry names that are string prefixes of one another (a, ab, abc), at
+\* several depths, so that a comparison of printed paths ("/ab/ab" starts with "/ab/a", "/ab" with "/a")
+\* differs from the name-by-name comparison the hierarchy is defined by: moves of directories into such
+\* siblings / deeper below them (legal), into their own subtree (refused), removal and lookup next to them.
+XArgPaths == {<<"a">>, <<"ab">>, <<"abc">>, <<"a", "f">>, <<"a", "ab">>, <<"ab", "a">>, <<"ab", "ab">>, <<"ab", "ab", "a">>}
+XMvDsts   == {<<p, FALSE>> : p \in XArgPaths \cup {<<"ab", "ab", "abc">>}}
+             \cup {<<p, TRUE>> : p \in {<<>>, <<"a">>, <<"ab">>, <<"abc">>, <<"ab", "a">>, <<"ab", "ab">>}}
 
 F(c, m, t) == FileNode(c, m, t)
 Dn(m, t)   == DirNode(m, t)
@@ -38,7 +45,11 @@ Presets ==
       \* tiny tree for the descriptor probes (GSpecProbe): one directory, one file with content and mtime
       (<<>> :> Dn(0, 0)) @@ (<<"a">> :> Dn(0, 0)) @@ (<<"a", "f">> :> F(<<1, 1>>, 0, 1)),
       \* the same with a file that got its mode after its content (w: inline leaf under CIDv1, finding D7)
-      (<<>> :> Dn(0, 0)) @@ (<<"a">> :> Dn(0, 0)) @@ (<<"a", "f">> :> [F(<<1, 1>>, 1, 0) EXCEPT !.w = TRUE]) >>
+      (<<>> :> Dn(0, 0)) @@ (<<"a">> :> Dn(0, 0)) @@ (<<"a", "f">> :> [F(<<1, 1>>, 1, 0) EXCEPT !.w = TRUE]),
+      \* prefix names: directory /a (with a file) next to /ab, whose children /ab/a and /ab/ab repeat the pattern
+      \* one level down, and a FILE /abc whose name extends both
+      (<<>> :> Dn(0, 0)) @@ (<<"a">> :> Dn(0, 0)) @@ (<<"a", "f">> :> F(<<1>>, 0, 0)) @@ (<<"ab">> :> Dn(0, 0))
+        @@ (<<"ab", "a">> :> Dn(0, 0)) @@ (<<"ab", "ab">> :> Dn(0, 0)) @@ (<<"abc">> :> F(<<2>>, 0, 0)) >>
 
 InitTree == Presets[pre]
 GInit == pre \in PresetSet /\ InitWith(InitTree) /\ hist = <<>> /\ tick = <<>>
